@@ -13,7 +13,7 @@ Decided:
 from ..absint import Interp, Val, run, variant
 from ..flow import arg_origins, origins
 from ..mir import op_const, op_local, try_edges
-from ..util import agg_assigns, result_return_kinds, unreachable_without, where
+from ..util import agg_assigns, deep_fields, result_return_kinds, unreachable_without, where
 
 LEVEL = "other"
 TECHNIQUE = ("table extraction by abstract interpretation of the FileType matches (mode, owner/group), typestate of the "
@@ -141,7 +141,7 @@ def check(ctx):
     for fname, (getter, opt, dflt) in GETTERS.items():
         gb = prog.must_body("acmed::config::Config::" + getter)
         sl = origins(gb, {"l": 0, "p": []})
-        gf = {f for a, f in sl.fields if a == "acmed::config::GlobalOptions"}
+        gf = {f for a, f in deep_fields(prog, sl) if a == "acmed::config::GlobalOptions"}
         ctx.require(R3, gf == {opt}, "%s:%s" % (gb.file, gb.line), "Config::%s reads global.%s only (%s)" % (getter, opt, sorted(gf)), ["config::" + getter, "option"])
         if dflt:
             items = {c.get("item") for c in sl.consts if c.get("item")}
